@@ -49,7 +49,7 @@ HasNames(e) == Defs(e) # {} \/ DefsL(e) # {} \/ HasOvr(e)
 \* ---- can match without consuming (calls are never considered nullable: the proviso of C16)
 RECURSIVE Nullable(_)
 RECURSIVE NullSeq(_, _)
-Nullable(e) == CASE e.op \in {"opt", "star", "void", "cut", "and", "not", "const", "oconst", "constbad", "emptyclosure", "eof", "eol", "fail"} -> TRUE
+Nullable(e) == CASE e.op \in {"opt", "star", "void", "cut", "and", "not", "const", "oconst", "oalert", "constbad", "emptyclosure", "eof", "eol", "fail"} -> TRUE
                  [] e.op = "pat" -> e.min = 0
                  [] e.op = "opat" -> e.nul
                  [] e.op = "join" -> ~e.plus
@@ -142,7 +142,7 @@ StaticLeaderDeviates(start) ==
 \* (an option/path that binds a name yields a dict, never None; an optional can always be skipped)
 RECURSIVE NoItems(_, _)
 NoItems(e, seen) ==
-  CASE e.op \in {"void", "cut", "and", "not", "eof", "fail", "skipgroup"} -> TRUE
+  CASE e.op \in {"void", "cut", "and", "not", "eof", "eol", "oalert", "fail", "skipgroup"} -> TRUE
     [] e.op = "opt" -> TRUE
     [] e.op = "seq" -> \A i \in 1..Len(e.es) : NoItems(e.es[i], seen)
     [] e.op = "alt" -> \E i \in 1..Len(e.es) : NoItems(e.es[i], seen)
